@@ -40,6 +40,19 @@ fn main() {
                 with_prop(&args[2], &mut |r| r.replay(Path::new(&p)))
             }
         }
+        "fuzzbytes" => {
+            // debugging aid: run one fuzz iteration on the bytes of a file
+            let data = if args.len() > 3 { std::fs::read(&args[3]).unwrap_or_default() } else { vec![] };
+            with_prop(&args[2], &mut |r| {
+                match r.fuzz(&data) {
+                    Some(p) => {
+                        println!("VIOLATION property={} replay={}", args[2], p);
+                        1
+                    }
+                    None => 0,
+                }
+            })
+        }
         _ => {
             println!("{}", usage);
             2
